@@ -208,7 +208,7 @@ abbrev Toks := List String
 /-- mocker.go:57 `baseMocker` of the `DefMocker` cached under builder `b` for function `f` -/
 structure Mocker where
   imp : Option Addr
-  whenRes : Option Toks       -- `when` with its default return (the part C01 needs; selection is C04/C05)
+  whenRes : Option (List Toks)  -- `when` with the results given to it so far (which one a call gets is C04/C05)
   guard : Option Nat
   canceled : Bool
 
@@ -256,10 +256,10 @@ def astepO (E : Env) (s : AState) : AOp → AState × Outcome
   | .ret b f v code res =>
     let m := getM s b f
     match m.whenRes with
-    | some _ => (setM s b f { m with whenRes := some res }, .ok 0)       -- mocker.go:548  m.when.Return(value...)
+    | some rs => (setM s b f { m with whenRes := some (rs ++ [res]) }, .ok 0)   -- mocker.go:548 m.when.Return(value...): one more result, nothing re-applied
     | none =>
       -- mocker.go:135 whens: m.imp = reflect.MakeFunc(when.funcTyp, m.callback); m.when = when ; then doApply(m.imp)
-      doApply E s b f { m with whenRes := some res } v { code := code, ctx := .stub b f }
+      doApply E s b f { m with whenRes := some [res] } v { code := code, ctx := .stub b f }
   | .reset b => ((List.range E.nf).foldl (fun s f => cancelM s b f) s, .ok 0)
   | .gc keep => ({ s with p := gc E s.p keep }, .ok 0)
   | .other op => ({ s with p := step E s.p op }, .ok 0)
@@ -272,7 +272,7 @@ def awellUsed (s : AState) : AOp → Prop
 
 /-- what a caller observes -/
 inductive Seen where
-  | orig | cb (k : Nat) | stubRet (res : Toks) | stubOrig | stubPanic | crash
+  | orig | cb (k : Nat) | stubRet (res : List Toks) | stubOrig | stubPanic | crash
   deriving DecidableEq, Repr
 
 /-- mocker.go:142 `callback` of the mocker the stub is bound to, read at call time -/
